@@ -230,7 +230,9 @@ class SYS(Prop):
                     for cn in conns.values():
                         cn.close()
                     fs.duck_conn.close()
-                    fs = fakesnow.instance.FakeSnow(db_path=pdir, nop_regexes=[NOP_PATTERN])
+                    # (everything the sessions name exists on disk: whether the new instance may create schemas is immaterial)
+                    op["cs"] = rng.choice((True, False))
+                    fs = fakesnow.instance.FakeSnow(db_path=pdir, nop_regexes=[NOP_PATTERN], create_schema_on_connect=op["cs"])
                     open_sessions()
                     res = ["ok"]
                 elif k == "sel":
@@ -318,6 +320,16 @@ class SYSHTTP(SYS):
                      consts=dict(base, Depth=14))]
 
 
+class SYSPERSIST(SYS):
+    """the same specification; only the walks on an instance with a db_path that is shut down and opened again (C18)"""
+
+    def model_checks(self, tier):
+        return [m for m in super().model_checks(tier) if m["name"] == "sys_mc_persist"]
+
+    def generations(self, tier, seed):
+        return [g for g in super().generations(tier, seed) if g["name"] == "sys_walks_persist"]
+
+
 # ------------------------------------------------------------------------------------------------ attribution
 def attribute(ops: list[dict], verdict: dict) -> str:
     """which property does a rejected step belong to?  By the observation field that differs from the closest allowed
@@ -343,6 +355,10 @@ def attribute(ops: list[dict], verdict: dict) -> str:
     k = op.get("k")
     kinds = {k} | ({a["k"] for a in op.get("items", [])} if k == "script" else set())
     intx = any(o["k"] == "begin" for o in ops[:at])
+    if any(o.get("k") == "restart" for o in ops[:at]):
+        # at or after the shut-down and re-opening of an instance on a db_path: what the new sessions report is C03's (set at
+        # connect), everything else - what is found on disk, and whether it can be used - is C18's
+        return "C03" if diff == {"ctx"} else "C18"
     if k == "script":
         return "C16"
     if k == "nop":
